@@ -146,7 +146,7 @@ func (c *Check) resetConstants(rule string) {
 		if pa.Exit != ExitSuccess {
 			continue
 		}
-		for _, fa := range pa.AllFacts() {
+		for _, fa := range c.closeFacts(pa.AllFacts()) {
 			if !fa.Neg && fa.T.Op == "==" && strings.HasSuffix(fa.T.A[0].Op, ".RequestContext.State") && fa.T.A[1].IsAt("#types.PAUSED") {
 				okS = true
 			}
@@ -192,20 +192,15 @@ func (c *Check) genesisCodecs(rule string) {
 	}
 	decodersOf := func(f *Func, owner string) map[string][]string {
 		out := map[string][]string{}
-		for _, pa := range c.P.PathsOf(f) {
-			for _, ev := range pa.Events {
-				if ev.Kind != EvCall {
-					continue
-				}
-				for _, a := range ev.CI.args {
-					if b, ok := a.Match("(key (.GenesisState.$F " + owner + "))"); ok {
-						_ = b
-					}
-					isDecoder := strings.Contains(ev.CI.name, "Decode") || strings.Contains(ev.CI.name, "FromBech32") || strings.Contains(ev.CI.name, "FromHex") || strings.Contains(ev.CI.name, "Unmarshal")
-					if isDecoder && a.Op == "key" && len(a.A) == 1 && strings.HasPrefix(a.A[0].Op, ".GenesisState.") {
-						fld := strings.TrimPrefix(a.A[0].Op, ".GenesisState.")
-						out[fld] = append(out[fld], ev.CI.name)
-					}
+		for _, dc := range c.deepCalls(f, 2) {
+			isDecoder := strings.Contains(dc.Name, "Decode") || strings.Contains(dc.Name, "FromBech32") || strings.Contains(dc.Name, "FromHex") || strings.Contains(dc.Name, "Unmarshal")
+			if !isDecoder {
+				continue
+			}
+			for _, a := range dc.Args {
+				if a.Op == "key" && len(a.A) == 1 && strings.HasPrefix(a.A[0].Op, ".GenesisState.") {
+					fld := strings.TrimPrefix(a.A[0].Op, ".GenesisState.")
+					out[fld] = append(out[fld], dc.Name)
 				}
 			}
 		}
@@ -502,11 +497,9 @@ func (c *Check) genesisValidators(rule string) {
 		return
 	}
 	seen := map[string]bool{}
-	for _, pa := range c.P.PathsOf(vg) {
-		for _, ev := range pa.Events {
-			if ev.Kind == EvCall && ev.CI.fn != nil && (strings.HasSuffix(ev.CI.name, ".Validate")) {
-				seen[ev.CI.name] = true
-			}
+	for _, dc := range c.deepCalls(vg, 2) {
+		if dc.Fn != nil && strings.HasSuffix(dc.Name, ".Validate") {
+			seen[dc.Name] = true
 		}
 	}
 	for _, w := range []string{"types.Params.Validate", "types.ServiceDefinition.Validate", "types.ServiceBinding.Validate", "types.RequestContext.Validate"} {
